@@ -216,6 +216,7 @@ pub(crate) fn c18_slice8_len_mismatch_panics() {
     let m: usize = any();
     assume(n <= 4 && m <= 4 && n != m);
     let _ = (&a[..n]).ct_eq(&b[..m]);
+    vcover!(true, "MUST-NOT: returned normally instead of refusing");
 }
 
 // ---------------------------------------------------------------- big-endian byte-array ordering
